@@ -78,6 +78,25 @@ def impl_settle(case):
 
     def balances():
         return {p: case["bal"][p] for p in order}
+    keep = bool(case.get("keep"))
+    tiers_obj = [list(t) for t in case["tiers"]]       # `keep`: ONE ranking object, used for every settlement of this case
+
+    def scrib(d):
+        if keep and isinstance(d, dict):
+            for k in list(d):
+                d[k] = (d[k] if isinstance(d[k], (int, float)) else 0) + 7
+    if keep:
+        # a caller who settles two pots of the same showdown with the ranking list he built once, and who uses the payout
+        # and rake dicts he gets back as his own ledger (overwrites the figures): a sibling pot (same contributions,
+        # unraked and raked) is settled first with the very ranking object, its reports are overwritten
+        for rk in (False, True):
+            try:
+                sib = Pot(n, f, case["cap"], balances())
+                scrib(sib.get_rake_per_player(rk))
+                pay0, r0 = sib.settle_showdown(tiers_obj, rk)
+                scrib(pay0); scrib(r0)
+            except Exception:
+                pass
     try:
         pot = Pot(n, f, case["cap"], balances())
     except Exception as e:
@@ -88,6 +107,7 @@ def impl_settle(case):
             pot.get_rake_per_player(case["rake_pot"]); pot.get_rake_per_player(not case["rake_pot"])
         r = pot.get_rake_per_player(case["rake_pot"])
         out["rake"] = [r[p] for p in range(n)]
+        scrib(r)
     except Exception as e:
         out["rake_exc"] = type(e).__name__
     if not case.get("twice"):
@@ -97,12 +117,12 @@ def impl_settle(case):
         import copy
         pc = copy.deepcopy(pot)
         try:
-            pot.settle_showdown([list(t) for t in case["tiers"]], case["rake_pot"])
+            pot.settle_showdown(tiers_obj if keep else [list(t) for t in case["tiers"]], case["rake_pot"])
         except Exception:
             pass
         pot = pc
     try:
-        pay, r = pot.settle_showdown([list(t) for t in case["tiers"]], case["rake_pot"])
+        pay, r = pot.settle_showdown(tiers_obj if keep else [list(t) for t in case["tiers"]], case["rake_pot"])
         out["pay"] = [pay[p] for p in range(n)]
         out["rake2"] = [r[p] for p in range(n)]
     except Exception as e:
@@ -182,6 +202,8 @@ class C14(Prop):
             c["korder"] = rng.randrange(1, n + 1)
         if rng.random() < 0.3:
             c["twice"] = True
+        if rng.random() < 0.3:
+            c["keep"] = True
         if rng.random() < 0.25:
             c["dcopy"] = True
         return c
@@ -343,6 +365,8 @@ class C02(Prop):
             c["korder"] = rng.randrange(1, n + 1)
         if rng.random() < 0.3:
             c["twice"] = True
+        if rng.random() < 0.3:
+            c["keep"] = True
         if rng.random() < 0.25:
             c["dcopy"] = True
         return c
